@@ -3,7 +3,7 @@ package spec
 type C14Case struct {
 	Proto     string   `json:"proto"`     // netrpc | grpc
 	ServerTLS string   `json:"serverTLS"` // none | static | ignorecert (serves plain text and ignores PLUGIN_CLIENT_CERT)
-	ClientTLS string   `json:"clientTLS"` // none | static | wrongca | auto
+	ClientTLS string   `json:"clientTLS"` // none | static | wrongca | auto | auto+static
 	Mux       bool     `json:"mux"`
 	OldPlugin bool     `json:"oldPlugin"` // plugin that does not advertise multiplexing (pre-mux)
 	Launch    string   `json:"launch"`    // cmd | runner | reattach
